@@ -386,7 +386,7 @@ func runScenario(sc Scenario, hang time.Duration) RawObs {
 			ip := net.ParseIP(cn.Remote)
 			if ip == nil {
 				n := atomic.AddInt32(&remoteSeq, 1)
-				ip = net.IPv4(198, 51, byte(100+(n>>8)%100), byte(n))
+				ip = net.IPv4(10, byte(n>>16), byte(n>>8), byte(n)) // 16M distinct sources: the limiters never refuse
 			}
 			rport := 40000 + (i+round*len(sc.Conns))%20000
 			one := func(cn Conn) {
